@@ -1187,3 +1187,103 @@ Proof.
   split; [now apply nodupb_ok|]. intros b Hb. rewrite forallb_forall in F. specialize (F b Hb).
   apply andb_true_iff in F. destruct F as [F1 F2]. apply Nat.eqb_eq in F1. apply negb_true_iff in F2. auto.
 Qed.
+
+(* ------------------------------------------------------------------ histories of the scripted driver *)
+Definition exec (s : st) (os : list op) : st := fold_left (fun s o => fst (step s o)) os s.
+
+Definition WS (s : st) : Prop :=
+  wf (sheap s) /\ forall i, In i (ids (sheap s)) -> (i < snext s)%N.
+
+Lemma ids_upd i f h : (forall b, bid (f b) = bid b) -> ids (upd i f h) = ids h.
+Proof.
+  intros Hf. unfold ids, upd. rewrite map_map. apply map_ext. intros b.
+  destruct (N.eqb (bid b) i); auto.
+Qed.
+
+Lemma wf_upd i f h : (forall b, bid (f b) = bid b) -> (forall b, visits (f b) = visits b) ->
+  (forall b, mark (f b) = mark b) -> wf h -> wf (upd i f h).
+Proof.
+  intros Hb Hv Hm [ND W]. split.
+  - now rewrite ids_upd.
+  - intros b Hin. unfold upd in Hin. apply in_map_iff in Hin. destruct Hin as [b0 [<- H0]].
+    destruct (W b0 H0) as [V M]. destruct (N.eqb (bid b0) i); auto. rewrite Hv, Hm. auto.
+Qed.
+
+Lemma WS_upd s i f : (forall b, bid (f b) = bid b) -> (forall b, visits (f b) = visits b) ->
+  (forall b, mark (f b) = mark b) -> WS s -> WS (mkst (upd i f (sheap s)) (snext s)).
+Proof.
+  intros Hb Hv Hm [W B]. split; simpl.
+  - now apply wf_upd.
+  - rewrite ids_upd by exact Hb. exact B.
+Qed.
+
+Lemma NoDup_snoc {A} (l : list A) x : NoDup l -> ~ In x l -> NoDup (l ++ [x]).
+Proof.
+  intros ND Hn. eapply Permutation_NoDup; [apply Permutation_cons_append|]. constructor; auto.
+Qed.
+
+Lemma WS_alloc s ext v : WS s -> WS (mkst (sheap s ++ [mkbox (snext s) [] ext v 0 false]) (N.succ (snext s))).
+Proof.
+  intros [[ND W] B]. split; simpl.
+  - split.
+    + rewrite ids_app. simpl. apply NoDup_snoc; auto.
+      intros Hin. specialize (B _ Hin). lia.
+    + intros b Hb. apply in_app_or in Hb. destruct Hb as [Hb|[<-|[]]]; auto.
+  - intros i Hi. rewrite ids_app in Hi. apply in_app_or in Hi. simpl in Hi.
+    destruct Hi as [Hi|[<-|[]]]; [specialize (B _ Hi)|]; lia.
+Qed.
+
+Lemma step_WS s o : WS s -> WS (fst (step s o)).
+Proof.
+  intros H. destruct o; simpl.
+  - now apply WS_alloc.
+  - now apply WS_alloc.
+  - destruct (find_box a (sheap s)); [|exact H]. destruct (find_box b (sheap s)); [|exact H].
+    destruct (accessible b0 && accessible b1); [|exact H]. simpl. apply WS_upd; auto.
+  - destruct (find_box a (sheap s)); [|exact H].
+    destruct (accessible b && N.ltb k (N.of_nat (length (edges b)))); [|exact H]. simpl. apply WS_upd; auto.
+  - destruct (find_box a (sheap s)); [|exact H]. destruct (ext_weak b); [exact H|]. simpl. apply WS_upd; auto.
+  - destruct (find_box a (sheap s)); [|exact H]. destruct (has_view b); [|exact H]. simpl. apply WS_upd; auto.
+  - destruct (find_box a (sheap s)); [|exact H].
+    destruct (negb (has_view b) && Nat.ltb 0 (ext_weak b)); [|exact H]. simpl. apply WS_upd; auto.
+  - destruct (find_box a (sheap s)); [|exact H]. destruct (accessible b); [|exact H]. simpl. apply WS_upd; auto.
+  - destruct H as [W B]. destruct (gc_spec _ W) as [h' [E [ND S]]]. rewrite E. simpl. split; simpl.
+    + eapply gc_resets; eauto.
+    + intros i Hi. apply in_ids in Hi. destruct Hi as [b [Hb <-]]. apply S in Hb. destruct Hb as [Hb _].
+      apply B. apply in_ids. exists b; auto.
+Qed.
+
+Lemma exec_WS : forall os s, WS s -> WS (exec s os).
+Proof.
+  induction os as [|o os IH]; intros s H; simpl; auto. apply IH. now apply step_WS.
+Qed.
+
+Lemma init_WS : WS init_st.
+Proof. split; simpl; [split; [constructor|intros b []]|intros i []]. Qed.
+
+(* along every history of driver operations the heap is well formed, so every collection in
+   it meets the hypothesis of gc_spec *)
+Theorem history_wf : forall os, wf (sheap (exec init_st os)).
+Proof. intros os. exact (proj1 (exec_WS os init_st init_WS)). Qed.
+
+Theorem history_gc_exact : forall os,
+  let h := sheap (exec init_st os) in
+  exists h', gc h = Ok h' /\ forall i, In i (ids h') <-> reachable h (roots h) i.
+Proof. intros os h. apply gc_exact. apply history_wf. Qed.
+
+Lemma run_ops_never_fails_from : forall os s, WS s -> forall site, ~ In (ObsFail site) (run_ops s os).
+Proof.
+  induction os as [|o os IH]; intros s H site; simpl; [tauto|].
+  pose proof (step_WS s o H) as H'.
+  destruct (step s o) as [s' ob] eqn:E. simpl in H'. intros [Hf|Hf].
+  - destruct H as [W _]. destruct (gc_spec _ W) as [h' [Eg _]].
+    destruct o; simpl in E;
+      repeat match type of E with
+             | context [match ?x with _ => _ end] => destruct x; try discriminate
+             end; inversion E; subst; discriminate.
+  - exact (IH s' H' site Hf).
+Qed.
+
+(* the model driver never reports a collector failure (debug_assert / fuel) on any script *)
+Theorem run_ops_never_fails : forall os site, ~ In (ObsFail site) (run_ops init_st os).
+Proof. intros os. apply run_ops_never_fails_from. exact init_WS. Qed.
